@@ -20,14 +20,14 @@ DB = "DB1"
 SC = "SC"
 
 SPEC = {
-    "runs": {"quick": 900, "thorough": 40000},
+    "runs": {"quick": 2500, "thorough": 80000},
     "wall": {"quick": 600, "thorough": 7200},
     "chunk": 10,
     "level": "exploration",
     "technique": "deterministic simulation: seeded baton scheduling of session threads at engine-call granularity + serial-order (linearizability) search against a reference model",
     "level_text": (
         "Seeded search over interleavings of the individual engine calls of 2-3 concurrent sessions (uniform random, PCT with 1-3 "
-        "priority changes, window-targeted and serial strategies); every run is checked for raised/hung operations and by an exact "
+        "priority changes, window-targeted, stall-one-session and serial strategies); every run is checked for raised/hung operations and by an exact "
         "serial-order search against a small executable model, then for final-state equality. Sampling, not enumeration: a clean batch is evidence, not proof."
     ),
     "level_note": (
@@ -40,7 +40,7 @@ SPEC = {
         "pre-emption point before every engine call; non-trivial = at least one pre-emption inside an operation while "
         ">=2 sessions were live; distinct = hash of (op kinds per session, sequence of (session, engine-call kind) pairs)"
     ),
-    "bounds": "k in 2..3 sessions, 1-5 ops per session after connect, strategies random/pct(1-3)/targeted/serial",
+    "bounds": "k in 2..3 sessions, 1-5 ops per session after connect, strategies random/pct(1-3)/targeted/serial/stall",
     "components_real": ["fakesnow/*", "sqlglot", "duckdb engine (in-memory)", "snowflake.connector error classes"],
     "components_stubbed": ["thread scheduling (baton over real threads)", "locks created by fakesnow code (SimLock)"],
     "assumptions": [
@@ -142,7 +142,7 @@ def gen(rng: Any, prop: str, tier: str) -> dict[str, Any]:
                     ops.append({"s": sid, "k": "exec", "tag": "usevar", "sql": "SELECT $myvar"})
             elif kind == "ctxq":
                 ops.append({"s": sid, "k": "exec", "tag": "ctxq", "schema": schema, "sql": "SELECT CURRENT_DATABASE(), CURRENT_SCHEMA()"})
-    strat = rng.choices(["random", "pct", "targeted", "serial"], [35, 35, 22, 8])[0]
+    strat = rng.choices(["random", "pct", "targeted", "serial", "stall"], [28, 28, 18, 6, 20])[0]
     return {
         "profile": NAME,
         "config": {"k": k, "own_schema": own_schema, "pre": pre, "hazards": hazards},
